@@ -12,7 +12,17 @@ fn gen_def(p: &mut Pool) -> OptSpec {
     for _ in 0..p.rng.below(4) {
         fields.push(p.named_field());
     }
-    if p.rng.chance(1, 5) {
+    if p.rng.chance(1, 6) {
+        // either a subcommand or words (`construct!([run_cmd, files])`): the command parser
+        // looks at the line first, a word right of `--` that is spelled like its name is data
+        let cmd = p.command(0);
+        let words = p.positionals(3);
+        if words.is_empty() {
+            fields.push(Spec::Alt(vec![cmd]));
+        } else {
+            fields.push(Spec::Alt(vec![cmd, Spec::Seq(words)]));
+        }
+    } else if p.rng.chance(1, 5) {
         // optional subcommand whose own level has the positionals
         let cmd = p.command(0);
         let a = Spec::Alt(vec![cmd]);
@@ -184,8 +194,12 @@ pub fn run_case(case: &mut Case) {
                     }
                 }
                 // words that moved to the left must not look like options there
+                // ... nor like a command name
                 let dashy = m[dd_at..*wi].iter().any(|u| match &u.kind {
-                    UKind::Word { value, .. } => value.starts_with(b"-"),
+                    UKind::Word { value, .. } => {
+                        value.starts_with(b"-")
+                            || b.alpha.cmds.iter().any(|c| c.as_bytes() == value.as_slice())
+                    }
                     _ => false,
                 });
                 if !dashy {
